@@ -129,7 +129,8 @@ class SymLabel(str):
             return SymBool(self.z == other.z)
         if isinstance(other, str):
             # a concrete label (e.g. the built-in blacklist): symbolic labels are assumed distinct
-            # from every concrete name the registry starts with
+            # from every concrete name the registry starts with -- except the representatives the
+            # harness re-keys as SymLabel constants (negative codes, see c06.BUILTIN_CODES)
             return False
         return NotImplemented
 
